@@ -23,7 +23,7 @@ def mapper(pid, text):
 
 CHECKS = [
     mapper('C01', 'Bounded symbolic model checking to a fixpoint: every reachable canonical symbolic configuration of the real mapper (all key codes symbolic, <=N keys held, histories of any length incl. ill-formed events) with no physical key held has no virtual key held.'),
-    mapper('C02', 'Same exploration; the justification oracle (clauses a-d) is evaluated at every prefix, membership tests decided under the path condition.'),
+    mapper('C02', 'Same exploration; the justification oracle (clauses a-d; d in a weaker, certain-violations-only form on layouts with absorbing mappings) is evaluated at every prefix, membership tests decided under the path condition.'),
     mapper('C03', 'Same exploration on layouts without absorbing; at every acted press from every reachable configuration the outputs are compared with rule R (last-listed satisfied mapping).'),
     mapper('C04', 'Same exploration; modifier set at the key-down instant of the fired mapping\'s final output is checked against the allowed set.'),
     mapper('C05', 'Same exploration; foreign keys are symbols constrained to occur nowhere in the layout, so the non-interference clauses are decided for all foreign codes at once.'),
@@ -31,7 +31,7 @@ CHECKS = [
     mapper('C07', 'Same exploration; after every step firing a Disabled/Special mapping no non-modifier key is held and no press is emitted before the next physical press.'),
     mapper('C08', 'Same exploration on layouts with absorbing mappings; absorption windows are tracked from the inputs and the clauses a-d are checked at every later press.'),
     mapper('C09', 'Same exploration; the returned ResultingRepeat is compared with the fired mapping\'s repeat (delay/interval are symbolic 32-bit values), NoChange/Disabled at the other steps.'),
-    mapper('C19', 'Same exploration; strict press/release fold over the concatenated outputs of all steps and of release_all batches issued from every reachable configuration.'),
+    mapper('C19', 'Same exploration; strict press/release fold over the concatenated outputs of all steps and of release_all batches issued from every reachable configuration; second leg: the same fold over everything do_remapping_loop_one_device writes (shared loop exploration of C10-C12/C20, timer chords excepted).'),
 ]
 
 LOOP_NOTE = ('Trusted: MIR text = program; mirsym\'s MIR semantics and std models; the Driver trait is the boundary (RealDriver, mio, nix are not encoded); '
@@ -82,7 +82,7 @@ CHECKS += [
     other('C14', 'Bounded symbolic execution looking for panics: serde_json::Value trees derived from a structure-aware grammar (wrong types, missing/extra fields, empty arrays, repeated keys, undefined/misplaced aliases, over-long rows, unknown characters, symbolic 64-bit numbers) run through parse -> convert -> Mapper::for_layout; accepted layouts and the whole mapper corpus are driven with symbolic key histories watching for panics.',
           'Trusted: the claim starts at serde_json::Value (bytes are parsed by serde_json); the grammar bounds (<= 3 source mappings, string pools); panics are first-class outcomes of mirsym (failed MIR asserts, unwrap/expect, index, begin_panic).',
           'symbolic execution of the real MIR of the loader pipeline over a grammar of Value trees with symbolic numbers; panic reachability; shared mapper fixpoint exploration for accepted layouts; native replay'),
-    other('C15', 'Bounded symbolic execution with a round-trip oracle: basic layouts (structure concrete, one key position symbolic at a time over all 484 codes, delay/interval symbolic i32) are serialised by the derived Serialize impls (crate MIR) against a model serializer and reloaded by the real parser+converter MIR; equality of the reloaded layout is decided per path / by validity queries.',
+    other('C15', 'Bounded symbolic execution with a round-trip oracle: basic layouts (structure concrete, one key position symbolic at a time over all 484 codes, delay/interval symbolic i32) are serialised by the derived Serialize impls (crate MIR) against a model serializer and reloaded by the real parser+converter MIR; equality of the reloaded layout is decided per path / by validity queries. Second leg: every derivation of the C14 shorthand grammar that the real parser+converter accept (aliases, rows, repeat-only entries, absorbing, symbolic 64-bit timings) is saved and reloaded the same way.',
           'Trusted: the model serializer\'s correspondence to serde_json\'s writer (checked natively on concrete layouts each run); MIR text = program.',
           'symbolic execution of the real MIR of the derived Serialize impls + parse_layout_from_json + convert; a symbolic key forks into its 484 written names; z3 validity queries on delay/interval; native save/reload replay through a temporary file'),
     other('C16', 'Bounded symbolic execution with a relational oracle: /proc/bus/input/devices texts assembled from realistic entries with symbolic structure (presence/order of lines, entry order, exclude patterns) and symbolic hex digits in the KEY and EV masks (solver-decided thresholds); both extractors must agree, classification must not depend on neighbours/order, and both discovery paths must select exactly the real, non-virtual, non-excluded keyboards.',
